@@ -32,16 +32,24 @@ import (
 //   - converted path if it has a symbolic link or the same path if there is
 //     no symbolic link
 func ResolveSymbolicLink(path string) (string, error) {
-	sym, part, err := getSymbolinkLink(path)
-	if err != nil {
-		return "", err
+	// the components that follow a replaced symbolic link can be symbolic links too:
+	// repeat until none is left (every round consumes at least one component)
+	for range strings.Split(path, string(os.PathSeparator)) {
+		sym, part, err := getSymbolinkLink(path)
+		if err != nil {
+			return "", err
+		}
+		if sym == "" && part == "" {
+			// no symbolic link detected
+			return path, nil
+		}
+		resolved := strings.Replace(path, part, sym, 1)
+		if resolved == path {
+			return path, nil
+		}
+		path = resolved
 	}
-	if sym == "" && part == "" {
-		// no symbolic link detected
-		return path, nil
-	}
-	return strings.Replace(path, part, sym, 1), nil
-
+	return path, nil
 }
 
 // getSymbolinkLink parses all parts of the path and returns the
